@@ -168,6 +168,7 @@ class Translator:
         self.in_progress = set()
         self.failed = {}        # (final, method) -> reason
         self.ignored = []       # statement calls skipped because the schema lists them as outside the model
+        self.ret_parts = {}     # lean name -> [type tag of each returned component]
 
     # ---------------------------------------------------------------- resolution
     def resolve(self, final, method, after=None):
@@ -280,6 +281,8 @@ class MethodTr:
         self.ret = ret
         # provisional signature so that (non-recursive) callees can be typed
         body = self.block(list(fn.body), 1)
+        parts = [q for q in getattr(self, "tuple_ret", []) if not isinstance(q, tuple) and q is not None]
+        self.tr.ret_parts[self.name] = parts if getattr(self, "tuple_ret", None) else [ret]
         self.tr.sigs[self.name] = (params, ret, self.pure, self.pynames)
         ps = "".join(f" ({n} : {self.schema.lean_type(t)})" for n, t in params)
         text = (f"/-- `{self.owner}.{self.method}` ({self.tr.classes[self.owner].path.split('/src/')[-1]}:"
@@ -819,3 +822,136 @@ def import_aliases(path):
             for a in node.names:
                 out[a.asname or a.name] = a.name.split(".")[-1]
     return out
+
+
+# ---------------------------------------------------------------------------------------------------
+# executable driver for the translated functions (translation validation: the harness calls the real
+# Python method and the translated Lean function on the same object and compares every field)
+# ---------------------------------------------------------------------------------------------------
+def driver_text(tr, entries, imports, opens, namespace):
+    """Lean source of a `main` that reads lines `<entry> <obj fields...> <args...>` and prints
+    `<obj fields after the call> | <returned components>`.
+
+    entries: [(public name used on the wire and in Lean, e.g. "RE.update", internal lean name)]
+    Field encodings: Int / Nat decimal; Bool 1/0; Option "-" or value; enum constructor name (a wrapping
+    constructor as `<ctor><n>`); function field `k:v,k:v` or `_` (default 0 elsewhere; printed at the same
+    keys); `effects` printed joined by `;` (input ignored)."""
+    sch = tr.schema
+    fields = sch.obj_fields()
+    L = []
+    L += [f"import {i}" for i in imports]
+    L += [f"open {o}" for o in opens]
+    L += [f"namespace {namespace}", "",
+          "def pInt (s : String) : Int := s.toInt?.getD 0",
+          "def pNat (s : String) : Nat := s.toNat?.getD 0",
+          "def pBool (s : String) : Bool := s == \"1\"",
+          "def pOptInt (s : String) : Option Int := if s == \"-\" then none else s.toInt?",
+          "def pOptNat (s : String) : Option Nat := if s == \"-\" then none else s.toNat?",
+          "def sBool (b : Bool) : String := if b then \"1\" else \"0\"",
+          "def sOptInt : Option Int → String | none => \"-\" | some i => toString i",
+          "def sOptNat : Option Nat → String | none => \"-\" | some i => toString i",
+          "def pMap (s : String) : List (Int × Int) :=",
+          "  if s == \"_\" then [] else (s.splitOn \",\").filterMap (fun kv => match kv.splitOn \":\" with",
+          "    | [k, v] => some (pInt k, pInt v) | _ => none)",
+          "def mapFn (l : List (Int × Int)) : Int → Int := fun k => (l.lookup k).getD 0",
+          "def sMap (f : Int → Int) (l : List (Int × Int)) : String :=",
+          "  if l.isEmpty then \"_\" else String.intercalate \",\" (l.map (fun kv => s!\"{kv.1}:{f kv.1}\"))", ""]
+    for en, tab in sch.enums.items():
+        ctors = list(dict.fromkeys(list(tab.get("values", {}).values()) + ([tab["none"]] if "none" in tab else [])))
+        wrap = tab.get("wrap")
+        L.append(f"def p{en} (s : String) : {en} :=")
+        for c in ctors:
+            L.append(f"  if s == \"{c}\" then {en}.{c} else")
+        if wrap:
+            L.append(f"  {en}.{wrap[1]} (pNat (s.drop {len(wrap[1])}).toString)")
+        else:
+            L.append(f"  {en}.{ctors[0]}")
+        L.append(f"def s{en} : {en} → String")
+        for c in ctors:
+            L.append(f"  | .{c} => \"{c}\"")
+        if wrap:
+            L.append(f"  | .{wrap[1]} n => s!\"{wrap[1]}{{n}}\"")
+        L.append("")
+
+    def parser(t, tok):
+        if t == "Int":
+            return f"pInt {tok}" if sch.num == "Int" else f"((pInt {tok} : Int) : {sch.num})"
+        if t in ("Nat", "Bool", "OptInt", "OptNat"):
+            return f"p{t} {tok}"
+        if t in sch.enums:
+            return f"p{t} {tok}"
+        return None
+
+    def shower(t, v):
+        if t == "Int":
+            return f"toString {v}"
+        if t == "Nat":
+            return f"toString {v}"
+        if t == "Bool":
+            return f"sBool {v}"
+        if t in ("OptInt", "OptNat"):
+            return f"s{t} {v}"
+        if t in sch.enums:
+            return f"s{t} {v}"
+        if t == "Unit":
+            return "\"()\""
+        return None
+
+    fn_fields = [f for _c, _a, f, _it, _vt in sch.indexed]
+    L.append(f"def parseObj (a : Array String) : {tr.obj} :=")
+    items = []
+    for i, (f, t) in enumerate(fields):
+        if f in fn_fields:
+            items.append(f"{f} := mapFn (pMap a[{i}]!)")
+        elif f == "effects":
+            items.append("effects := []")
+        else:
+            ps = parser(t, f"a[{i}]!")
+            if ps is None:
+                raise Untranslatable(f"driver: field {f} : {t}")
+            items.append(f"{f} := {ps}")
+    L.append("  { " + ", ".join(items) + " }")
+    L.append(f"def showObj (o : {tr.obj}) (a : Array String) : String :=")
+    outs = []
+    for i, (f, t) in enumerate(fields):
+        if f in fn_fields:
+            outs.append(f"sMap o.{f} (pMap a[{i}]!)")
+        elif f == "effects":
+            outs.append("(if o.effects.isEmpty then \"_\" else String.intercalate \";\" o.effects)")
+        else:
+            outs.append(shower(t, f"o.{f}"))
+    L.append("  String.intercalate \" \" [" + ", ".join(outs) + "]")
+    n = len(fields)
+    L.append("")
+    L.append(f"def call (name : String) (o : {tr.obj}) (a : Array String) : String :=")
+    for pub, internal in entries:
+        params, ret, pure, pynames = tr.sigs[internal]
+        args = []
+        for j, (pn, pt) in enumerate(params):
+            args.append("(" + parser(pt, f"a[{n + j}]!") + ")")
+        parts = tr.ret_parts[internal]
+        if len(parts) == 1:
+            rs = shower(parts[0], "r.2")
+        else:
+            acc, comps = "r.2", []
+            for k, pt in enumerate(parts):
+                last = k == len(parts) - 1
+                comps.append(shower(pt, acc if last else acc + ".1"))
+                acc = acc + ".2"
+            rs = "String.intercalate \" \" [" + ", ".join(comps) + "]"
+        L.append(f"  if name == \"{pub}\" then let r := {internal} o {' '.join(args)}; showObj r.1 a ++ \" | \" ++ {rs} else")
+    L.append("  \"bad-op\"")
+    L += ["",
+          "partial def loop (h : IO.FS.Stream) : IO Unit := do",
+          "  let line ← h.getLine",
+          "  if line.isEmpty then return ()",
+          "  let toks := ((line.trimAscii.toString).splitOn \" \").toArray",
+          f"  if toks.size < {n + 1} then IO.println \"bad-op\" else",
+          "    IO.println (call toks[0]! (parseObj (toks.extract 1 toks.size)) (toks.extract 1 toks.size))",
+          "  loop h",
+          "",
+          f"end {namespace}",
+          "",
+          f"def main : IO Unit := do {namespace}.loop (← IO.getStdin)",
+          ""]
+    return "\n".join(L), [f for f, _ in fields]
